@@ -944,9 +944,10 @@ func (x *fx) rangeWrite(et types.Type, ref, lo, hi string, val func(mem, i strin
 		x.nver++
 		nv := x.declMemVersion(name, fmt.Sprintf("w%d", x.nver))
 		idx := x.idxSort()
-		x.assume(fmt.Sprintf("(forall ((r Int)) (! (=> (not (= r %s)) (= (select %s r) (select %s r))) :pattern ((select %s r))))", ref, nv, cur, nv))
-		x.assume(fmt.Sprintf("(forall ((i %s)) (! (= (select (select %s %s) i) (ite %s %s (select (select %s %s) i))) :pattern ((select (select %s %s) i))))",
-			idx, nv, ref, x.and(x.ile(lo, "i"), x.ilt("i", hi)), val(name, "i"), cur, ref, nv, ref))
+		// (bound variables are named q!r / q!i: no Go identifier can capture them)
+		x.assume(fmt.Sprintf("(forall ((q!r Int)) (! (=> (not (= q!r %s)) (= (select %s q!r) (select %s q!r))) :pattern ((select %s q!r))))", ref, nv, cur, nv))
+		x.assume(fmt.Sprintf("(forall ((q!i %s)) (! (= (select (select %s %s) q!i) (ite %s %s (select (select %s %s) q!i))) :pattern ((select (select %s %s) q!i))))",
+			idx, nv, ref, x.and(x.ile(lo, "q!i"), x.ilt("q!i", hi)), val(name, "q!i"), cur, ref, nv, ref))
 		n := x.newMem("store", x.curMem)
 		n.name = name
 		n.term = nv
@@ -1174,8 +1175,8 @@ func (x *fx) keepRegion(r region, newV, oldV string) string {
 	if r.hi == x.iadd(r.lo, x.idxConst(1)) {
 		return fmt.Sprintf("(= (select (select %s %s) %s) (select (select %s %s) %s))", newV, r.ref, r.lo, oldV, r.ref, r.lo)
 	}
-	return fmt.Sprintf("(forall ((i %s)) (! (=> %s (= (select (select %s %s) i) (select (select %s %s) i))) :pattern ((select (select %s %s) i))))",
-		x.idxSort(), x.and(x.ile(r.lo, "i"), x.ilt("i", r.hi)), newV, r.ref, oldV, r.ref, newV, r.ref)
+	return fmt.Sprintf("(forall ((q!i %s)) (! (=> %s (= (select (select %s %s) q!i) (select (select %s %s) q!i))) :pattern ((select (select %s %s) q!i))))",
+		x.idxSort(), x.and(x.ile(r.lo, "q!i"), x.ilt("q!i", r.hi)), newV, r.ref, oldV, r.ref, newV, r.ref)
 }
 
 // specAddr returns the address (a pointer value with a component path) of a field
